@@ -306,6 +306,17 @@ void group_op(Ctx& cx, G g, Flat)
         rs.has_bits = true;
         rs.bits = sbepp::size_bytes(g);
         break;
+    case G_HEADER_FIELDS:
+    {
+        auto h = sbepp::get_header(g);
+        auto bl = h.blockLength();
+        auto num = h.numInGroup();
+        h.blockLength(bl);
+        h.numInGroup(num);
+        rs.has_bits = true;
+        rs.bits = to_bits(bl.value()) * 1000003ULL + to_bits(num.value());
+        break;
+    }
     case G_ITER:
         for(auto it = g.begin(); it != g.end(); ++it) record_entry(cx, *it);
         break;
@@ -620,11 +631,13 @@ void cursor_level(Ctx& cx, View v, Cursor& c, ScriptState& ss, u64 inst_start)
                         {
                             if(d.write)
                             {
-                                // re-write the value random access reads (content unchanged)
-                                auto cur = acc(v);
-                                acc(v, cur, std::forward<decltype(wc)>(wc));
+                                // write the value the script carries (the model supplies what the frame holds,
+                                // so the content is unchanged); no random-access call is involved
+                                using T = decltype(acc(v));
+                                const auto nv = make_value<T>(k, d.value);
+                                acc(v, nv, std::forward<decltype(wc)>(wc));
                                 st.has_bits = true;
-                                st.bits = value_bits(k, cur);
+                                st.bits = value_bits(k, nv);
                                 st.cursor_off = cx.off(c.pointer());
                                 return;
                             }
@@ -933,6 +946,21 @@ void message_op(Ctx& cx, const SchemaShape& sh)
         rs.has_addr = true;
         rs.addr_off = cx.off(sbepp::addressof(h));
         rs.size = sbepp::size_bytes(h);
+        break;
+    }
+    case M_HEADER_FIELDS:
+    {
+        auto h = sbepp::get_header(m);
+        auto bl = h.blockLength();
+        auto ti = h.templateId();
+        auto si = h.schemaId();
+        auto ve = h.version();
+        h.blockLength(bl);
+        h.templateId(ti);
+        h.schemaId(si);
+        h.version(ve);
+        rs.has_bits = true;
+        rs.bits = ((to_bits(bl.value()) * 1000003ULL + to_bits(ti.value())) * 1000003ULL + to_bits(si.value())) * 1000003ULL + to_bits(ve.value());
         break;
     }
     case M_FILL_HEADER:
